@@ -8,10 +8,12 @@
    its visited lists down but not across sibling branches and never checks ring closure, so 1,3-dioxetane
    is recognised as an acetal (the same carbon used twice) and tropylium-ol as a phenol (a 7-ring accepted
    for the 6-ring pattern) although no injective embedding exists (Model/FGMatch.occurs_at) -- recorded
-   known findings.  "Every occurrence is found" (completeness) is not proved; the correspondence compares
-   every call with RDKit's substructure search and reports a missed occurrence as a violation. *)
+   known findings.  The other half HOLDS and is proved (C16_every_occurrence_is_recognised): on well-formed graphs every
+   real occurrence (Model/FGMatch.occurs_at; more generally every injective symbol- and bond-preserving embedding,
+   C16_embedding_is_recognised) is recognised.  So the recogniser answers true on a superset of the real occurrences.
+   The correspondence also compares every call with RDKit's substructure search. *)
 From Coq Require Import String List Bool Arith Permutation.
-From SynRBL Require Import Model.FGMatch Proofs.FGProofs Gen.GenFG.
+From SynRBL Require Import Model.FGMatch Proofs.FGProofs Proofs.FGComplete Gen.GenFG.
 Import ListNotations.
 Open Scope string_scope.
 
@@ -27,6 +29,23 @@ Theorem C16_renumbering_invariant : forall G G' pi c a,
   check_functional_group G' c (pi a) = check_functional_group G c a.
 Proof. exact check_functional_group_iso. Qed.
 
+(* completeness: every real occurrence is recognised *)
+Theorem C16_embedding_is_recognised : forall G P (f : nat -> nat),
+  (forall p q, p < size P -> q < size P -> f p = f q -> p = q) ->
+  (forall p, p < size P -> sym G (f p) = sym P p) ->
+  (forall p q, p < size P -> In q (nbrs P p) -> In (f q) (nbrs G (f p)) /\ bond G (f p) (f q) = bond P p q) ->
+  (forall p q, p < size P -> In q (nbrs P p) -> q < size P) -> (forall p, p < size P -> NoDup (nbrs P p)) ->
+  forall pa, pa < size P -> pattern_match G P (f pa) = true.
+Proof. exact pattern_match_complete. Qed.
+Theorem C16_every_occurrence_is_recognised : forall G P anchor,
+  pwfb P = true -> gwfb G = true -> occurs_at G P anchor = true -> pattern_match G P anchor = true.
+Proof. exact occurs_at_complete. Qed.
+(* generated obligation: every pattern, group and anti-pattern of the current configuration is a well-formed graph *)
+Definition structures : list graph :=
+  flat_map (fun c => (map fst (fg_patterns (snd c)) ++ map snd (fg_patterns (snd c)) ++ fg_anti (snd c))%list) fg_configs.
+Theorem generated_patterns_wf : forallb pwfb structures = true.
+Proof. vm_compute. reflexivity. Qed.
+
 Definition cfg (name : string) : fgconfig :=
   match find (fun p => String.eqb (fst p) name) fg_configs with Some p => snd p | None => {| fg_patterns := []; fg_anti := [] |} end.
 Definition first_pattern (name : string) : graph :=
@@ -41,7 +60,7 @@ Definition phenol_rev : graph := mkgraph ["C"; "C"; "C"; "C"; "C"; "C"; "O"] [[1
 Example C16_example :
   check_functional_group phenol (cfg "phenol") 0 = true /\ check_functional_group phenol (cfg "alcohol") 0 = false /\
   check_functional_group phenol_rev (cfg "phenol") 6 = true /\ check_functional_group phenol_rev (cfg "alcohol") 6 = false /\
-  occurs_at phenol (first_pattern "phenol") 0 = true.
+  occurs_at phenol (first_pattern "phenol") 0 = true /\ gwfb phenol = true /\ pwfb (first_pattern "phenol") = true.
 Proof. repeat split; vm_compute; reflexivity. Qed.
 
 (* 1,3-dioxetane C1OCO1 : the acetal pattern COCOC has three carbons, the molecule two *)
@@ -63,3 +82,6 @@ Print Assumptions C16_pattern_match_renumbering_invariant.
 Print Assumptions C16_renumbering_invariant.
 Print Assumptions C16_refuted_non_injective.
 Print Assumptions C16_refuted_ring_closure.
+Print Assumptions C16_embedding_is_recognised.
+Print Assumptions C16_every_occurrence_is_recognised.
+Print Assumptions generated_patterns_wf.
